@@ -16,5 +16,5 @@ FUNCTIONS = ['uxarray.grid.connectivity._replace_fill_values',
 STANDINS = ["sharing", "explicit_spec"]
 ASSUMPTIONS = []
 EXPLANATION = ""
-LEVEL_TEXT = "_replace_fill_values and _process_connectivity proved with ownership frames: the caller's array is never stored into and the result is fresh storage; Grid.copy / exports / constructors bounded (mutate-and-compare)"
+LEVEL_TEXT = "_replace_fill_values and _process_connectivity proved with ownership frames: the caller's array is never stored into and the result is fresh storage; _set_desired_longitude_range, the coordinate conversions called with arrays, the ESMF reader and the MPAS parsers proved never to write into caller-owned buffers; Grid.copy proved to deep-copy the dataset into a new Grid; to_polycollection proved to return an object that is not the cached one; other exports / constructors bounded (mutate-and-compare)"
 LEVEL_NOTE = 'ownership ghost on arrays (caller/fresh); xarray copy semantics assumed'
